@@ -2,6 +2,9 @@
 """Regenerates MANIFEST.json from the table below (kept in one place so it is always valid)."""
 import json, os
 CLAIMED = {
+ 'C02': dict(technique='must-conjunct dataflow on the accept verdict of each decrypt method, hypothesis folding of the engine\'s rejection paths and of the record-length gates, exactly-once path rule for sequence numbers, call-order (dominance) rule',
+             text='Static necessary conditions: a failed padding/MAC/tag/length contribution forces rejection in all four record decrypt methods; rejection is turned into BR_ERR_BAD_MAC / BAD_LENGTH with no payload released; length gates match the decrypt arithmetic; sequence numbers advance exactly once per record; GCM tags cover the ciphertext. Does not decide MAC values or which fields enter the MAC.',
+             note='Trusted: clang/opt 14, sa/oblig.py, debug-info variable names as site selectors.'),
  'C05': dict(technique='exhaustive stack-depth and balance analysis of the T0 bytecode with native effects derived from the run function IR; struct layouts from debug info',
              text='Static: for all seven T0 interpreters (X.509 minimal/decoder, private/public key decoders, PEM, client and server handshake) the maximum data and return stack depth over every path of every word fits the context arrays, every join is balanced, the call graph is acyclic and the stack pointers are initialised to the arrays. Decides VM stack safety for every input; does not decide the C code of native words.',
              note='Trusted: clang 14 IR, irdump, sa/t0.py decoder; the interpreter skeleton is re-derived from IR (exit 2 if unrecognised). LP64 layouts.'),
@@ -48,7 +51,7 @@ m = dict(
   dict(name='T0', path='sa/t0.py', serves_properties=['C05'], kind_free_text='decoder + analyses for the T0 bytecode embedded in the generated interpreters'),
   dict(name='TAB', path='sa/tab.py', serves_properties=['C11', 'C12', 'C13'], kind_free_text='constants lifted from IR vs references generated from the standards'),
   dict(name='WMW', path='sa/wmw.py', serves_properties=['C20'], kind_free_text='who-may-write / exactly-once structural rules over the whole program IR'),
-  dict(name='FOLD', path='sa/fold.py, sa/oblig.py', serves_properties=['C10', 'C11', 'C14', 'C20'], kind_free_text='hypothesis folding with opt-14 as abstract interpreter; must-conjunct dataflow'),
+  dict(name='FOLD', path='sa/fold.py, sa/oblig.py', serves_properties=['C02', 'C05', 'C10', 'C11', 'C14', 'C20'], kind_free_text='hypothesis folding with opt-14 as abstract interpreter; must-conjunct dataflow'),
  ],
  checks=[dict(property_id=p, quick_cmd='./check %s --tier quick' % p, thorough_cmd='./check %s --tier thorough' % p,
               evidence_file='evidence/%s.json' % p, replay_cmd_template='./check replay {path}', engine='sa/checks/%s.py' % p.lower(),
